@@ -32,7 +32,17 @@ type Target struct {
 	Params   []string          `json:"params"`   // explicit order of free parameters (optional)
 	Skip     []string          `json:"skip"`     // call prefixes whose expression statements are ignored (log., metrics.)
 	GuardOf  string            `json:"guard_of"` // translate the conjunction of the if-conditions enclosing the first assignment to this variable
+	CondOfErr string           `json:"cond_of_err"` // translate the condition of the if-statement whose body returns an error containing this text
+	CallArg  *CallArgSpec      `json:"call_arg"`    // translate one argument of the n-th call to a callee
+	Calls    map[string]string `json:"calls"`       // aliases for calls to functions translated elsewhere: Go callee -> Coq name (bool result)
 	ReturnOf string            `json:"return_of"` // fragment mode alternative: translate the n-th result expression of the LAST return statement: "0"
+}
+
+type CallArgSpec struct {
+	Callee     string `json:"callee"`
+	Index      int    `json:"index"`
+	Occurrence int    `json:"occurrence"`
+	Type       string `json:"type"`
 }
 
 type Spec struct {
@@ -442,6 +452,10 @@ func (t *tr) call(x *ast.CallExpr) (string, typ) {
 			r, _ := t.expr(sel.X)
 			return "(Z.sgn " + r + ")", tUntyped
 		}
+	}
+	if alias, ok := t.tgt.Calls[fn]; ok {
+		ss, _ := args()
+		return "(" + alias + " " + strings.Join(ss, " ") + ")", tBool
 	}
 	// previously translated function
 	if t.funcs[fn] {
@@ -984,7 +998,7 @@ func main() {
 					t.recvName = ""
 				}
 			}
-			if tg.Fragment == nil && tg.ReturnOf == "" && tg.GuardOf == "" {
+			if tg.Fragment == nil && tg.ReturnOf == "" && tg.GuardOf == "" && tg.CondOfErr == "" && tg.CallArg == nil {
 				for _, p := range fd.Type.Params.List {
 					ty := normType(exprStr(p.Type))
 					for _, n := range p.Names {
@@ -1062,6 +1076,56 @@ func main() {
 					code = "(andb " + code + " " + cs + ")"
 				}
 				resultType = "bool"
+			case tg.CondOfErr != "":
+				var cond ast.Expr
+				ast.Inspect(fd.Body, func(n ast.Node) bool {
+					ifs, ok := n.(*ast.IfStmt)
+					if !ok || cond != nil {
+						return true
+					}
+					for _, st := range ifs.Body.List {
+						r, ok := st.(*ast.ReturnStmt)
+						if !ok {
+							continue
+						}
+						for _, res := range r.Results {
+							hit := false
+							ast.Inspect(res, func(m ast.Node) bool {
+								if bl, ok := m.(*ast.BasicLit); ok && bl.Kind == token.STRING && strings.Contains(bl.Value, tg.CondOfErr) {
+									hit = true
+								}
+								return true
+							})
+							if hit {
+								cond = ifs.Cond
+							}
+						}
+					}
+					return true
+				})
+				if cond == nil {
+					fail("cond_of_err: no if-statement returning an error containing %q in %s", tg.CondOfErr, tg.Func)
+				}
+				cs, ct := t.expr(cond)
+				if ct != tBool {
+					fail("cond_of_err: non-boolean condition")
+				}
+				code = cs
+				resultType = "bool"
+			case tg.CallArg != nil:
+				var hits []*ast.CallExpr
+				ast.Inspect(fd.Body, func(n ast.Node) bool {
+					if c, ok := n.(*ast.CallExpr); ok && exprStr(c.Fun) == tg.CallArg.Callee {
+						hits = append(hits, c)
+					}
+					return true
+				})
+				if tg.CallArg.Occurrence >= len(hits) || tg.CallArg.Index >= len(hits[tg.CallArg.Occurrence].Args) {
+					fail("call_arg: call %d to %s with %d args not found in %s", tg.CallArg.Occurrence, tg.CallArg.Callee, tg.CallArg.Index+1, tg.Func)
+				}
+				cs, ct := t.expr(hits[tg.CallArg.Occurrence].Args[tg.CallArg.Index])
+				code = cs
+				resultType = coqType(ct)
 			case tg.ReturnOf != "":
 				idx, _ := strconv.Atoi(tg.ReturnOf)
 				var rets []*ast.ReturnStmt
